@@ -356,7 +356,7 @@ def _sized_ref_local(fr, loc):
     return inner["k"] in ("adt", "array", "alias") and not inner.get("adt", "").endswith("InOutBuf")
 
 
-def _discover_affine(ip, st, fr, H, N, var, region, cont, runner):
+def _discover_affine(ip, st, fr, H, N, var, region, cont, runner, exclude=frozenset()):
     """{loc: affine description} of the sizes / slice references written in the loop body whose new
     value is the old one plus a constant (independent of the index and of every other carried value)."""
     try:
@@ -368,7 +368,7 @@ def _discover_affine(ip, st, fr, H, N, var, region, cont, runner):
         for cell, path in s.wlog:
             if cell in st.heap:
                 fpath, br, rest = split_path(path)
-                if br is None and not rest and (cell, fpath) not in W:
+                if br is None and not rest and (cell, fpath) not in W and (cell, fpath) not in exclude:
                     W.append((cell, fpath))
     ph = {}
     syms = {}
@@ -484,12 +484,19 @@ def _discover_affine(ip, st, fr, H, N, var, region, cont, runner):
         if step is None or (step.symbols() & (set(syms) | {var})) or any(x.startswith("$") for x in step.symbols()):
             continue
         steps[(loc, which)] = (orig, step)
+    bad = []
     for loc in guessed:
         if (loc, 1) in steps and (loc, 2) in steps:
             s1_, s2_ = steps[(loc, 1)][1], steps[(loc, 2)][1]
             if st.F.prove_ge(s1_) and (s1_ + s2_) == ZERO:
                 continue
-        return dict(refseq)      # the assumed shape of a slice variable is not an invariant: no closed forms
+        bad.append(loc)
+    if bad:
+        # the assumed shape ("consumed from the front") is not an invariant of these slice variables
+        # (per-iteration temporaries such as the chunk just split off): guess again without them
+        if len(exclude) + len(bad) > 24:
+            return dict(refseq)
+        return _discover_affine(ip, st, fr, H, N, var, region, cont, runner, frozenset(exclude) | frozenset(bad))
     affine = {}
     for loc, pv in ph.items():
         if pv[0] == "size" and (loc, 0) in steps:
